@@ -597,17 +597,21 @@ fn(CachedStore, "delete", args={"key": Str}, uses=POLICY_IFACE + CS_HELPERS + KV
 # invalidation drops cache entries only; in write-back mode a dirty entry is the only copy of a write, so it
 # has to reach the backing store before it is dropped ("write-back data is never discarded ...")
 fn(CachedStore, "invalidate", args={"key": Str}, uses=POLICY_IFACE + CS_HELPERS, focus=CS_FOCUS,
-   requires=[UNBOUNDED_BACKING], ensures=[
+   modifies=CACHE_PUT_MODIFIES,
+   requires=[UNBOUNDED_BACKING] + CS_INV_CLAUSES, ensures=CS_INV_CLAUSES + [
     ("key-gone", lambda s: Not(has(s.self._cache, s.key))),
     ("only-key-removed", lambda s: mk_bool(sdom(s.self._cache) == without(sdom(s.old(s.self)._cache), s.key))),
+    ("only-key-leaves-dirty", lambda s: mk_bool(sdom(s.self._dirty_keys) == without(sdom(s.old(s.self)._dirty_keys), s.key))),
     ("others-same", lambda s: _others_same(s, s.key)),
     ("dirty-only-leaves-written", lambda s: _written_back(s.old(s.self), s.self)),
     ("backing-store-only-receives-dirty-values", _backing_frame),
 ])
 
 fn(CachedStore, "invalidate_all", uses=POLICY_IFACE + CS_HELPERS, focus=CS_FOCUS,
-   requires=[UNBOUNDED_BACKING], ensures=[
+   modifies=CACHE_PUT_MODIFIES,
+   requires=[UNBOUNDED_BACKING] + CS_INV_CLAUSES, ensures=CS_INV_CLAUSES + [
     ("cache-empty", lambda s: mk_bool(sdom(s.self._cache) == EMPTY_S) & (slen(s.self._cache) == 0)),
+    ("nothing-dirty", lambda s: mk_bool(sdom(s.self._dirty_keys) == EMPTY_S)),
     ("dirty-only-leaves-written", lambda s: _written_back(s.old(s.self), s.self)),
     ("backing-store-only-receives-dirty-values", _backing_frame),
 ])
@@ -763,3 +767,121 @@ fn(SoftTTLCache, "put", args={"key": Str, "value": Any}, uses=KV_API + ST_STORE,
         & mk_bool(e_val(s.self._cache, s.key) == s.value.t)
         & mk_bool(e_at(s.self._cache, s.key) == num(now_ns(s.self)))),
 ])
+
+# ============================================================================ D. MultiTierCache (synchronous part)
+# Tiers are CachedStore instances (the only tier class the repo ships); the contracts below are checked for
+# a two-tier cache (the tier list is concrete, everything else symbolic).  The tier operations are used through
+# the CachedStore contracts of part B.  get/put/delete (generators over tier generators) are not under contract:
+# see the report.
+from happysimulator.components.datastore.multi_tier_cache import MultiTierCache  # noqa: E402
+
+cls(MultiTierCache, fields={"_tiers": Seq(Ref(CachedStore)), "_backing_store": Ref(KVStore), "_promotion_policy": Any,
+                            "_access_counts": CNT, "_reads": Int, "_writes": Int, "_tier_hits": Map(Int, Int),
+                            "_backing_store_hits": Int, "_misses": Int, "_promotions": Int},
+    const=["_tiers", "_backing_store", "_promotion_policy"])
+stub_of(MultiTierCache, "_should_promote", returns=Bool, modifies=[], ensures=[])     # any promotion decision
+
+
+def _two_tiers(s):
+    t0, t1 = Ref(CachedStore).fresh("tier0"), Ref(CachedStore).fresh("tier1")
+    assume(Not(same(t0, t1)) & Not(same(t0._eviction_policy, t1._eviction_policy)))
+    s.self._tiers = [t0, t1]
+    s.t0, s.t1 = t0, t1
+    for t in (t0, t1):
+        assume(t._backing_store._capacity is None)
+    return [t0, t1, t0._eviction_policy, t1._eviction_policy, t0._backing_store, t1._backing_store]
+
+
+def _tier_inv(s, t):
+    return sym_and(*[f(NS_(self=t)) for _, f in CS_INV_CLAUSES])
+
+
+class NS_:
+    def __init__(ns, **kw):
+        ns.__dict__.update(kw)
+
+
+MT_USES = POLICY_IFACE + CS_HELPERS + [(CachedStore, "invalidate"), (CachedStore, "invalidate_all")]
+
+fn(MultiTierCache, "invalidate", args={"key": Str}, setup=_two_tiers, uses=MT_USES, ensures=[
+    ("no-tier-holds-the-key", lambda s: Not(has(s.t0._cache, s.key)) & Not(has(s.t1._cache, s.key))),
+    # (write-back safety of each tier's invalidate is the CachedStore.invalidate clause of part B)
+    ("tiers-keep-their-invariants", lambda s: _tier_inv(s, s.t0) & _tier_inv(s, s.t1))])
+
+fn(MultiTierCache, "invalidate_all", setup=_two_tiers, uses=MT_USES, ensures=[
+    ("every-tier-empty", lambda s: mk_bool(sdom(s.t0._cache) == EMPTY_S) & mk_bool(sdom(s.t1._cache) == EMPTY_S)),
+    ("access-counts-reset", lambda s: mk_bool(sdom(s.self._access_counts) == EMPTY_S)),
+    ("tiers-keep-their-invariants", lambda s: _tier_inv(s, s.t0) & _tier_inv(s, s.t1))])
+
+fn(MultiTierCache, "_cache_value", args={"key": Str, "value": Any}, setup=_two_tiers, uses=MT_USES, ensures=[
+    ("fastest-tier-holds-the-value", lambda s: implies(Not(has(s.old(s.t0)._cache, s.key)),
+        has(s.t0._cache, s.key) & mk_bool(mval(s.t0._cache, s.key) == s.value.t))),
+    # a fill carries a value fetched before the last yield: an entry written meanwhile is newer and must stay
+    ("fill-never-overwrites-an-entry", lambda s: implies(has(s.old(s.t0)._cache, s.key), unchanged(s, s.t0, "_cache", "_dirty_keys"))),
+    ("lower-tier-untouched", lambda s: unchanged(s, s.t1, "_cache", "_dirty_keys")),
+    ("tiers-keep-their-invariants", lambda s: _tier_inv(s, s.t0) & _tier_inv(s, s.t1)),
+    ("tier0-dirty-only-leaves-written", lambda s: _written_back(s.old(s.t0), s.t0))])
+
+fn(MultiTierCache, "_maybe_promote", args={"key": Str, "value": Any, "from_tier": Int}, setup=_two_tiers,
+   uses=MT_USES + [(MultiTierCache, "_should_promote")], ensures=[
+    ("promotion-only-from-a-lower-tier", lambda s: implies(s.from_tier <= 0, unchanged(s, s.t0, "_cache") & unchanged(s, s.self, "_promotions"))),
+    ("promotion-never-overwrites-an-entry", lambda s: implies(has(s.old(s.t0)._cache, s.key), unchanged(s, s.t0, "_cache", "_dirty_keys"))),
+    ("promoted-value-lands-in-fastest-tier", lambda s: implies(
+        s.self._promotions == s.old(s.self)._promotions + 1,
+        has(s.t0._cache, s.key) & mk_bool(mval(s.t0._cache, s.key) == s.value.t))),
+    ("counts-promotions", lambda s: (s.self._promotions == s.old(s.self)._promotions)
+        | (s.self._promotions == s.old(s.self)._promotions + 1)),
+    ("lower-tier-untouched", lambda s: unchanged(s, s.t1, "_cache", "_dirty_keys")),
+    ("tiers-keep-their-invariants", lambda s: _tier_inv(s, s.t0) & _tier_inv(s, s.t1))])
+
+def _one_tier(s):
+    """single-tier variant (the two-tier delete obligations make z3 answer `unknown` on the unrepaired tree)"""
+    t0 = Ref(CachedStore).fresh("tier0")
+    s.self._tiers = [t0]
+    s.t0 = s.t1 = t0
+    assume(t0._backing_store._capacity is None)
+    return [t0, t0._eviction_policy, t0._backing_store]
+
+
+fn(MultiTierCache, "delete", args={"key": Str}, setup=_one_tier, uses=MT_USES + KV_API,
+   focus=lambda s: [s.self._backing_store],
+   requires=[("backing-store-unbounded", lambda s: s.self._backing_store._capacity is None)],
+   yields=Yields(at_yield=[
+       ("delay-nonnegative", lambda s, y: y >= 0),
+       ("removed-from-every-tier-at-once", lambda s, y: Not(has(s.t0._cache, s.key)) & Not(has(s.t1._cache, s.key))),
+       ("tiers-keep-their-invariants", lambda s, y: _tier_inv(s, s.t0) & _tier_inv(s, s.t1))],
+       stable=[("Entity", "_clock")]),
+   ensures=[
+    # (a tier entry that became dirty while the delete was in flight is a later write-back write: it survives)
+    ("deleted-from-backing-store", lambda s: implies(
+        Not(has(s.pre(s.t0)._dirty_keys, s.key)) & Not(has(s.pre(s.t1)._dirty_keys, s.key)),
+        Not(has(s.self._backing_store._data, s.key)))),
+    # a miss fill that raced with the delete must not leave the deleted value in a tier
+    ("completed-delete-not-shadowed-by-a-tier0-entry", lambda s: Not(has(s.t0._cache, s.key))),
+    ("completed-delete-not-shadowed-by-a-tier1-entry", lambda s: Not(has(s.t1._cache, s.key))),
+    ("tiers-keep-their-invariants", lambda s: _tier_inv(s, s.t0) & _tier_inv(s, s.t1))])
+
+# ============================================================================ E. write policies
+cls(WriteThrough, fields={})
+cls(WriteBack, fields={"_flush_interval": Real, "_max_dirty": Int, "_dirty_keys": SSET, "_last_flush_time": Real},
+    const=["_flush_interval", "_max_dirty"], inv=[("max-dirty-positive", lambda o: o._max_dirty >= 1)])
+cls(WriteAround, fields={"_invalidated_keys": Seq(Str)})
+
+fn(WriteThrough, "should_write_through", ensures=[("always", lambda s: s.result is True)])
+fn(WriteThrough, "should_flush", ensures=[("never", lambda s: s.result is False)])
+fn(WriteThrough, "get_keys_to_flush", ensures=[("nothing-to-flush", lambda s: len(s.result) == 0)])
+fn(WriteBack, "should_write_through", ensures=[("never", lambda s: s.result is False)])
+fn(WriteBack, "on_write", args={"key": Str, "value": Any}, ensures=[
+    ("written-key-becomes-dirty", lambda s: mk_bool(sdom(s.self._dirty_keys) == with_(sdom(s.old(s.self)._dirty_keys), s.key)))])
+fn(WriteBack, "should_flush", ensures=[
+    ("flush-when-dirty-limit-reached", lambda s: iff(s.result, slen(s.self._dirty_keys) >= s.self._max_dirty)),
+    ("pure", lambda s: unchanged(s, s.self))])
+fn(WriteBack, "get_keys_to_flush", ensures=[
+    ("exactly-the-dirty-keys", lambda s: mk_bool(sdom(s.result) == sdom(s.self._dirty_keys))),
+    ("pure", lambda s: unchanged(s, s.self))])
+fn(WriteAround, "should_write_through", ensures=[("always", lambda s: s.result is True)])
+fn(WriteAround, "on_write", args={"key": Str, "value": Any}, ensures=[
+    ("written-key-queued-for-invalidation", lambda s: mk_bool(
+        seq_term(s.self._invalidated_keys) == z3.Concat(seq_term(s.old(s.self)._invalidated_keys), z3.Unit(kt(s.key)))))])
+# WriteAround.get_keys_to_invalidate (`keys = self._l; self._l = []; return keys`) is not under contract: the
+# engine binds a container read from a field to the field's location, so rebinding the field changes `keys`.
